@@ -581,6 +581,10 @@ var firstCallShapes = []struct {
 }{
 	// the handler flushes by hand: one answer flushed, one still buffered when it returns early
 	{"handler-returns-early-manual-flush-rendezvous", "sssshR", "rsfs", true},
+	// a server that leaves flushing to its handlers, and handlers that never flush: what they sent goes
+	// out with their return
+	{"manual-flush-server-handler-answers-and-returns", "shR", "rss", false},
+	{"manual-flush-server-handler-drains-answers-and-returns", "sshR", "Rs", false},
 	{"failed-send-then-recv", "mrhR", "sR", false},
 	{"failed-sends-then-recv-send", "mmrshR", "srR", false},
 	{"recv-first-control", "rhR", "sR", false},
